@@ -532,6 +532,17 @@ def r4_count_write_pairing(ctx, rule):
                                 if len(sets) == 1 and const(sets[0].value) == 1:
                                     same = [a]
                                     joined_adds.add(id(a))
+            # ... and nothing can leave the function between the two (seed C04-ga moved the increment behind the limit check: the guess
+            # that uses up the limit is written, the early return skips its count - create_guesses reports one less than it wrote)
+            if len(same) == 1 and block is not None and any(s is same[0] for s in block) and any(s is p for s in block):
+                i0, i1 = sorted((next(k for k, s in enumerate(block) if s is p), next(k for k, s in enumerate(block) if s is same[0])))
+                for mid in block[i0 + 1:i1]:
+                    for x in ast.walk(mid):
+                        if isinstance(x, (ast.Return, ast.Raise, ast.Break, ast.Continue)):
+                            ok = False
+                            ctx.bad(rule, qual, '%s between %s and its `num_guesses += 1`' % (type(x).__name__.lower(), U(p)[:40]),
+                                    'a guess that is written is counted on every path, and the other way round: a jump between the write and the '
+                                    'count makes the reported number differ from the lines written exactly when the jump is taken', None, x, firm=True)
             if len(same) != 1:
                 ok = False
                 ctx.bad(rule, qual, '%d `num_guesses += 1` next to %s' % (len(same), U(p)),
